@@ -101,8 +101,8 @@ def r5_2(ctx):
     # (a private piece of simulate() itself -- called from nowhere else -- is part of the loop: its stores are in the table above)
     own = with_private_pieces(ctx, {f.qualname})
     for g in sim_reach(ctx, precise=not ctx.thorough):
-        if g.qualname in own and g.cls == PROJECT:
-            continue
+        if g.qualname in own and g.cls == PROJECT and not any(cs.callees for cs in ctx.eff.calls_of(g)):
+            continue   # (pure bookkeeping: a piece that calls into the model is a step phase, not the loop's own exit code)
         for ef in ctx.eff.of(g):
             if ef.kind == "store" and ef.attr == "status" and ef.cls in (None, PROJECT):
                 ctx.violation(construct(g, "status-writer"), ef.loc, "project status written from inside a step phase")
